@@ -187,6 +187,7 @@ PROPS = {
     ),
     'C19': dict(
         functions=[M + 'datasets._base._sha256', M + 'datasets._base._fetch_remote', M + 'datasets._base.load_csv_dataset_from_remote'],
+        driver='datasets',       # independence of datasets = distinct cache slots / files: the C18 enumeration is part of this check too
         level='proof',
         explanation=("Ghost file system + network counter (pyvc/oslib.py). Proved on the real code: (a) _sha256 digests exactly the bytes "
                      "of the file (loop invariant over z3 strings); (b) _fetch_remote returns only after a successful download, makes "
